@@ -301,6 +301,20 @@ def s_find(p, s, sub, start=0):
 
 
 def s_contains(p, s, sub):
+    s, sub = lift_str(s), lift_str(sub)
+    if len(sub.cs) == 1 and _is_plain_sep(sub.cs[0]):
+        # a char that cannot occur inside a decimal rendering: look at the other atoms only
+        d = sub.cs[0]
+        disj = []
+        for c in s.cs:
+            if isinstance(c, Render):
+                continue
+            if isinstance(c, int):
+                if c == d:
+                    return True
+            else:
+                disj.append(c == d)
+        return mk_bool(z3.Or(disj)) if disj else False
     r = s_find(p, s, sub)
     if isinstance(r, int):
         return r >= 0
